@@ -122,9 +122,11 @@ func verifC16GenLocal(t *rapid.T) verifC16Op {
 // verifC16GenDrift draws one drift op.
 func verifC16GenDrift(t *rapid.T) verifC16Op {
 	switch w := rapid.IntRange(0, 99).Draw(t, "drift"); {
-	case w < 20:
+	case w < 18:
 		return verifC16GenSvc(t, "d-svc")
-	case w < 32:
+	case w < 26:
+		return verifC16Op{K: "d-eto", ID: rapid.SampledFrom(verifC16SvcIDs).Draw(t, "sid"), Tags: rapid.SampledFrom(verifC16TagSets).Draw(t, "tags")}
+	case w < 34:
 		return verifC16Op{K: "d-tags", ID: rapid.SampledFrom(verifC16SvcIDs).Draw(t, "sid"), Tags: rapid.SampledFrom(verifC16TagSets).Draw(t, "tags")}
 	case w < 40:
 		return verifC16Op{K: "d-taddr", ID: rapid.SampledFrom(verifC16SvcIDs).Draw(t, "sid"), Port: rapid.SampledFrom([]int{1, 2}).Draw(t, "port")}
